@@ -8,7 +8,7 @@ import json, os, shutil, subprocess, sys, tempfile, glob
 src, prop, name = sys.argv[1], sys.argv[2], sys.argv[3]
 env = dict(os.environ, GOFLAGS="-mod=mod", GOPROXY="off", GOSUMDB="off", GOTOOLCHAIN="local")
 def sh(cmd, cwd, timeout=1500):
-    p = subprocess.run(cmd, shell=True, cwd=cwd, env=env, capture_output=True, text=True, timeout=timeout)
+    p = subprocess.run(cmd, shell=True, cwd=cwd, env=env, capture_output=True, text=True, errors="replace", timeout=timeout)
     return p.returncode, (p.stdout + p.stderr)
 wt = tempfile.mkdtemp(prefix="seedverify-", dir="/tmp")
 os.rmdir(wt)
